@@ -90,6 +90,22 @@ func init() {
 	register(&core.Rule{ID: "O2", Min: 15,
 		Doc: "Pool typestate (no escape of pooled memory): on every path on which a buffer is put back, nothing the function returns, and nothing it leaves behind a *[]byte parameter, aliases the backing array that was put (copy-out via a fresh make/dirtmake + copy, or a swap that parks the caller-visible bytes in the buffer that is kept).",
 		Run: func(c *core.Ctx) { runOwn(c, "O2") }})
+	// the string routines of C20 (Quote, HTMLEscape, the utf8 and unquote packages): the same two
+	// typestate rules, restricted to functions of those routines
+	c20 := func(cn string) bool {
+		for _, pre := range []string{"internal/encoder.Quote", "internal/encoder.HTMLEscape", "internal/encoder/alg.Quote", "internal/encoder/alg.HtmlEscape", "utf8.", "unquote.", "encoder.Quote", "encoder.HTMLEscape"} {
+			if strings.HasPrefix(cn, pre) {
+				return true
+			}
+		}
+		return false
+	}
+	register(&core.Rule{ID: "O1s", Min: 1,
+		Doc: "O1 restricted to the string routines (encoder.Quote, encoder.HTMLEscape, alg.Quote, alg.HtmlEscape, packages utf8 and unquote): no use of a pooled buffer after it was put back.",
+		Run: func(c *core.Ctx) { c.Keep = c20; runOwn(c, "O1"); c.Keep = nil }})
+	register(&core.Rule{ID: "O2s", Min: 1,
+		Doc: "O2 restricted to the string routines: what Quote / HTMLEscape / the utf8 and unquote routines return never aliases a buffer they put back into a pool (a later encoder call reusing the buffer would rewrite the literal the caller holds, which then no longer decodes to the input).",
+		Run: func(c *core.Ctx) { c.Keep = c20; runOwn(c, "O2"); c.Keep = nil }})
 }
 
 type tokSet map[int]bool
